@@ -405,7 +405,7 @@ PROPERTY = {
     "explanation": "Channel insertion by the translator (which gates, which qubits, order, parameters) is proved from the AST for every rate value (symbolic "
                    "rates, recorded cirq terms) on every gate kind incl. multi-controlled ones; the depolarising parameter is proved to give (1-p) rho + p 1/2^k "
                    "under cirq's documented channel (exact Pauli-transfer computation, k <= 3). The density matrices of the real cirq simulator are compared "
-                   "with an independent Kraus evolution in the bounded layer.",
+                   "with an independent Kraus evolution in the bounded layer. Every noisy gate name carries its OWN symbolic rates (several noisy names of the same arity in one circuit). Unbounded: the noise insertion loop step for circuits of ANY length (P3). Bounded histories of translations sharing model / circuit objects (O7).",
     "bounds": {"quick": "11 gate kinds x 4 noise specs, alone and between other gates, 3 qubits; end-to-end: 7 gates x 3 specs x 3 rate sets (every 2nd)", "thorough": "all"},
     "assumptions": ["cirq's asymmetric_depolarize / depolarize implement their documented channels (validated numerically in C19.O6)", "floats as reals"],
     "trusted_base": ["tverif AST interpreter", "tverif.fakes", "z3", "cirq"],
